@@ -589,10 +589,10 @@ class Scn:
         if self.env.fault is not None:
             self.env.fault.armed = False
 
-    def arm_fault(self, kinds=None, short_write=True):
+    def arm_fault(self, kinds=None, short_write=True, actions=None):
         from .models.fs import FaultController
         if self.env.fault is None:
-            self.env.fault = FaultController(kinds=kinds, short_write=short_write)
+            self.env.fault = FaultController(kinds=kinds, short_write=short_write, actions=actions)
         self.env.fault.armed = True
 
     def step_of_action(self, rec):
@@ -841,6 +841,19 @@ class Concretiser:
                 d[k] = v
         return d
 
+    def _fault_spec(self, fired, k):
+        suffix = "*"
+        if fired.get("path") is not None:
+            p = self.bytes_of(fired["path"]).decode("utf-8", "replace")
+            if p.startswith(ROOT + "/"):
+                p = p[len(ROOT) + 1:]
+            comps = [c for c in p.split("/") if c]
+            suffix = "/".join(comps[-2:]) if len(comps) >= 2 else p
+            if comps and ".tmp" in comps[-1]:
+                suffix = "*"
+        return {"mode": "fault", "step": k, "class": fired["kind"], "occurrence": fired["occurrence"],
+                "errno": fired["errno"], "short": None, "suffix": suffix}
+
     def scenario(self, upto=None):
         steps = [self.step(st) for st in self.scn.log[:upto]]
         out = {"flavour": self.scn.flavour, "steps": steps}
@@ -856,6 +869,8 @@ class Concretiser:
                 raise Unreplayable("crash outside a logged step")
             out["shim"] = {"mode": "crash", "step": k, "effects": fired["effects"],
                            "torn": None if fired["torn"] is None else self.ev(fired["torn"])}
+            if env.fault is not None and env.fault.fired is not None:
+                out["shim"]["fault"] = self._fault_spec(env.fault.fired, k)
         elif env.fault is not None and env.fault.fired is not None:
             fired = env.fault.fired
             k = getattr(self.scn, "fault_step", None)
